@@ -117,6 +117,22 @@ static Pencil<T> make_pencil(const Desc& d, bool b_general)
         }
         pD = D;
     }
+    else if (fam == "nullA")
+    {
+        // A = blockdiag(0, A2): A e1 = 0, so a start vector e1 is mapped to zero by every operator built from A
+        // (the start-vector fallback of Arnoldi::init); B is SPD and not a multiple of I on e1
+        A = MatL::Zero(n, n);
+        for (int i = 1; i < n; i++)
+            for (int j = 1; j <= i; j++)
+                A(i, j) = A(j, i) = r.sym();
+        B = MatL::Zero(n, n);
+        for (int i = 0; i < n; i++)
+        {
+            B(i, i) = 2.0L + 0.5L * r.uni();
+            if (i + 1 < n)
+                B(i, i + 1) = B(i + 1, i) = 0.6L;
+        }
+    }
     else
     {
         MatL M(n, n);
